@@ -2716,8 +2716,11 @@ func (p *parser) parseLambdaExpr(allowTuple, allowCmd, allowRangeExpr bool) (x a
 			RhsHasParen: rhsHasParen,
 		}, false
 	} else if isTuple && !allowTuple {
-		p.error(x.(*tupleExpr).opening, msgTupleNotSupported)
+		t := x.(*tupleExpr)
+		p.error(t.opening, msgTupleNotSupported)
 		p.advance(stmtStart)
+		// callers that do not allow a tuple treat x as an ordinary expression
+		x, isTuple = &ast.BadExpr{From: t.opening, To: p.safePos(t.closing)}, false
 	}
 	return
 }
